@@ -42,9 +42,10 @@ def make_image(rng):
     if fmt == "GIF":
         img = img.convert("P")
     kw = {}
-    dpi_kind = rng.choice(["absent", "int", "frac", "zero", "huge", "nonsquare", "one"])
+    dpi_kind = rng.choice(["absent", "int", "frac", "zero", "huge", "nonsquare", "one", "mixed1", "mixed2", "mixed3", "odd"])
     if dpi_kind != "absent" and fmt != "GIF":
-        d = {"int": (96, 96), "frac": (72.5, 299.99), "zero": (0, 0), "huge": (5000, 100000), "nonsquare": (150, 300), "one": (1, 2048)}[dpi_kind]
+        d = {"int": (96, 96), "frac": (72.5, 299.99), "zero": (0, 0), "huge": (5000, 100000), "nonsquare": (150, 300), "one": (1, 2048),
+             "mixed1": (0, 300), "mixed2": (3000, 150), "mixed3": (200, 5000), "odd": (220, 7)}[dpi_kind]
         if fmt == "BMP" and dpi_kind in ("zero",):
             d = (1, 1)
         kw["dpi"] = d
@@ -84,15 +85,18 @@ def correspond(ctx):
 
     n_hist = 40 if ctx.quick else 600
     for hi in range(n_hist):
-        pool = [make_image(rng) for _ in range(rng.randint(1, 5))]
+        many = hi % 4 == 3   # every fourth history holds 10+ distinct images (index 10 sorts before 2 as a string)
+        pool = [make_image(rng) for _ in range(rng.randint(11, 14) if many else rng.randint(1, 5))]
         blob_id = {}
         prs = Presentation()
         slides = [prs.slides.add_slide(prs.slide_layouts[6]) for _ in range(rng.randint(1, 3))]
         adds, outs = [], []
         expected_blobs = {}
         pics = []
-        for step in range(rng.randint(3, 20)):
-            blob, fmt, dk = rng.choice(pool)
+        nsteps = rng.randint(3, 20)
+        order = list(range(len(pool))) if many else []
+        for step in range(nsteps + len(order)):
+            blob, fmt, dk = pool[order.pop(0)] if order else rng.choice(pool)
             bid = blob_id.setdefault(blob, len(blob_id) + 1)
             slide = rng.choice(slides)
             how = rng.choice(["stream", "path", "path-misleading", "placeholder", "poster", "ole-icon"])
